@@ -108,9 +108,9 @@ def validate(chk, names, n=3):
 def sections(tier):
     S = run.Section
     if tier == 'quick':
-        plan = [('X1s', 60000, 170), ('X1', 60000, 170), ('X2', 60000, 170), ('X4r', 60000, 170)]
+        plan = [('X1s', 60000, 170), ('X1', 60000, 170), ('X2', 60000, 170), ('X4r', 60000, 170), ('X1si', 60000, 170)]
     else:
-        plan = [('X1s', 120000, 1200), ('X1', 120000, 1200), ('X2', 120000, 1200), ('X2b', 120000, 1200), ('X3', 120000, 1200)]
+        plan = [('X1s', 120000, 1200), ('X1', 120000, 1200), ('X2', 120000, 1200), ('X2b', 120000, 1200), ('X3', 120000, 1200), ('X1si', 120000, 1200), ('X4r', 120000, 1200)]
     return [S('exact:' + c, exactness(c), timeout_ms=to, budget_s=bud, replayer='D', config=c, maxpaths=64) for c, to, bud in plan]
 
 
